@@ -512,9 +512,10 @@ def fuzz_campaign(prop, seed):
             cmd.append("corpus")
         ps.append((d, subprocess.Popen(cmd, cwd=ROOT, stdout=subprocess.DEVNULL, stderr=subprocess.PIPE, text=True)))
     failures, stats, info = [], [], {"processes": procs, "runs_requested_each": runs, "executions": 0, "property_executions": 0, "skipped": None}
+    deadline = time.time() + cfg.get("timeout", 3600)  # one wall budget for the whole campaign
     for d, p in ps:
         try:
-            _, err = p.communicate(timeout=cfg.get("timeout", 3600))
+            _, err = p.communicate(timeout=max(1.0, deadline - time.time()))
         except subprocess.TimeoutExpired:
             p.kill()
             _, err = p.communicate()
